@@ -188,6 +188,11 @@ def classify(expected, got):
 # corpus
 
 
+# an ordinary MIME preamble: longer than boundary + the first part's header block, so that search offsets left over
+# from the preamble search would point into (or behind) the first part
+LONG_PRE = b"This is a multi-part message in MIME format.\nIf you see this text your client does not understand it.\n"
+
+
 def corpus(rng, cfg, index, of):
     """Yield (parts, boundary, nl_name, preamble, epilogue) - systematic slice then random bodies."""
     n = 0
@@ -195,7 +200,7 @@ def corpus(rng, cfg, index, of):
         atoms = G.payload_atoms(bnd)
         for nl_name in ("crlf", "lf", "cr"):
             for p1 in atoms:
-                for p2, bodyless, pre in ((None, False, b""), (b"", True, b""), (b"zz", False, b"pre"), (b"\r\n", True, b"")):
+                for p2, bodyless, pre in ((None, False, b""), (b"", True, b""), (b"zz", False, b"pre"), (b"\r\n", True, b""), (b"", False, LONG_PRE)):
                     n += 1
                     if n % of != index:
                         continue
@@ -204,7 +209,7 @@ def corpus(rng, cfg, index, of):
                     if p2 is not None:
                         parts.append(G.Part("file" if p2 == b"zz" else "field", "b", p2, filename="f.bin" if p2 == b"zz" else None,
                                             ctype="application/octet-stream" if p2 == b"zz" else None, bodyless=bodyless))
-                    yield parts, bnd, nl_name, (pre + nl if pre else b""), b""
+                    yield parts, bnd, nl_name, (pre.replace(b"\n", nl) + nl if pre else b""), b""
     # empty form and part-less bodies
     if index == 0:
         for bnd in (b"b", b"bound"):
@@ -226,7 +231,8 @@ def corpus(rng, cfg, index, of):
                        ctype=rng.choice((None, "text/plain", "application/octet-stream; charset=utf-8")),
                        bodyless=rng.random() < 0.5, extra=extra)
             )
-        pre = rng.choice((b"", b"", b"preamble text" + nl, nl, b"--" + nl))
+        pre = rng.choice((b"", b"", b"preamble text" + nl, nl, b"--" + nl, LONG_PRE.replace(b"\n", nl) + nl,
+                          b"p" * rng.randrange(1, 200) + nl + nl, nl.join(rng.choice(atoms) for _ in range(rng.randrange(2, 9))) + nl))
         epi = rng.choice((b"", b"", b"epilogue", nl + b"more"))
         yield parts, bnd, nl_name, pre, epi
 
